@@ -15,7 +15,10 @@ Executable contract evaluated after EVERY real call of seeded / enumerated edit 
             getAncestorAndDistance, getAncestorWithFlags, __contains__, index, __len__/__iter__/__getitem__.
 * copy.*    copy.deepcopy / pickle round trip of a subtree: equal shape, no shared node / parameter collection / grid /
             locator / material, internally re-linked (children -> new parent, grid.armiObject -> new owner, locators ->
-            new grid, material -> new component), root detached, original untouched.
+            new grid, material -> new component), root detached, original untouched.  Suffix ``.stale-multilocation`` when the
+            copied tree holds a component with several locations that was moved to another parent (its detached
+            MultiIndexLocation still shares the location objects of the former parent's grid): one failure class of its own;
+            the scenario "move fuel from b1 to b2, copy the assembly" is always run.
 * misuse sequences under their own ids (the statement quantifies over ANY sequence; these end a sequence):
             wf.add-while-attached.<add|insert|setChildren>  (DESIGN 5 F1: object still has another parent)
             wf.remove-nonchild                               (DESIGN 5 F2: remove of a non-child)
@@ -62,12 +65,14 @@ B = Bounded(
     "seeded edit sequences (every real call followed by the whole contract) over 4 tree kinds x 5 modes (well-formed, and four "
     "API-misuse endings), operations add/insert(any index)/remove/removeAll/setChildren/replace/re-order/move/sort/deepcopy/"
     "pickle/place + Block, Assembly, Core, SpentFuelPool specific add/insert/remove/reestablishBlockOrder/removeAssembly; plus "
-    "the enumerated insert-index sweep (every index -(n+2)..n+2 for n<=4 children on Composite, HexBlock, HexAssembly) and "
+    "the enumerated insert-index sweep (every index -(n+2)..n+2 for n<=4 children on Composite, HexBlock, HexAssembly), the "
+    "multi-location move + copy scenario, and "
     "every sequence of <= 3 (thorough 4) primitive edits on a 2-parent / 5-node generic tree; distinct = distinct "
     "(tree kind, build, mode, operation-history prefix)",
     "sequence length <= 6 quick / <= 10 thorough; generic trees <= 3 levels x <= 4 children; blocks <= 8 components; assemblies "
     "<= 4 blocks; smallest test core <= 4 assemblies; generationNum 0..4 x deep F/T x predicates {none, Flags exact/not incl. "
-    "lists and None, type name, lambda}; <= 2 (thorough 3) copies per sequence",
+    "lists and None, type name, lambda}; <= 2 (thorough 3) copies per sequence + a trailing deepcopy and pickle; seeded "
+    "sequences quick 300/150/150/120 + 4x6 misuse per tree kind, thorough 4000/2000/2000/1600 + 4x40",
 )
 THOROUGH = B.thorough()
 MAXLEVEL, MAXCH = 3, 4
@@ -382,7 +387,37 @@ def build_mini(W, rng):
         W.reg(o)
 
 
-BUILDERS = {"generic": build_generic, "block": build_block, "assembly": build_assembly, "core": build_core, "mini": build_mini}
+def build_milmove(W, rng):
+    """An assembly of two blocks with pin grids; fuel and clad of the first block sit on several locations of its grid."""
+    a = assemblies.HexAssembly("fuel", assemNum=1)
+    a.spatialGrid = grids.AxialGrid.fromNCells(2)
+    a.spatialGrid.armiObject = a
+    b1, b2 = blocks.HexBlock("b1", 10.0), blocks.HexBlock("b2", 10.0)
+    for b in (b1, b2):
+        b.setType("fuel")
+        b.spatialGrid = grids.HexGrid.fromPitch(1.0, armiObject=b)
+    fuel = Circle("fuel", "UZr", 25.0, 500.0, od=0.8, id=0.0, mult=2.0)
+    clad = Circle("clad", "HT9", 25.0, 500.0, od=1.0, id=0.8, mult=2.0)
+    b1.add(fuel)
+    b1.add(clad)
+    fuel.spatialLocator = b1.spatialGrid[[(0, 0, 0), (1, 0, 0)]]
+    clad.spatialLocator = b1.spatialGrid[[(0, 0, 0), (1, 0, 0)]]
+    a.add(b1)
+    a.add(b2)
+    W.reg(a)  # 0 assembly, 1 b1, 2 fuel, 3 clad, 4 b2
+
+
+def multilocation_move():
+    """Move a several-location component to the sibling block, then copy the assembly both ways (always run: the random
+    sequences reach this only now and then)."""
+    for how in (["deepcopy", 0], ["pickle", 0, pickle.HIGHEST_PROTOCOL]):
+        W = new_world("milmove", 0, "wellformed")
+        for op in (["remove", 1, 2, False], ["add", 4, 2], how):
+            if not apply_op(W, op):
+                break
+
+
+BUILDERS = {"milmove": build_milmove, "generic": build_generic, "block": build_block, "assembly": build_assembly, "core": build_core, "mini": build_mini}
 
 
 # ------------------------------------------------------------------------------------------------ contract: well-formedness
@@ -577,7 +612,8 @@ def check_copy(W, orig, cp, how, preU, pre_grids):
     def shape(o, c, top):
         if type(o) is not type(c) or len(kids(o)) != len(kids(c)):
             return "%s vs %s: class/child count" % (W.lab(o), W.lab(c))
-        nameOk = o.name == c.name or (top and how == "deepcopy" and isinstance(o, (Core, Reactor)) and c.name == o.name + "-copy")
+        # Core / Reactor.__deepcopy__ rename their copy "<name>-copy" (documented in their __deepcopy__), wherever it sits in the copied subtree
+        nameOk = o.name == c.name or (how == "deepcopy" and isinstance(o, (Core, Reactor)) and c.name == o.name + "-copy")
         if not nameOk or naive_type(o) != naive_type(c) or (o.p.flags is None) != (c.p.flags is None) or (o.p.flags is not None and o.p.flags._value != c.p.flags._value):
             return "%s vs %s: name/type/flags" % (W.lab(o), W.lab(c))
         for ko, kc in zip(kids(o), kids(c)):
@@ -586,6 +622,14 @@ def check_copy(W, orig, cp, how, preU, pre_grids):
                 return r
         return None
 
+    # A component with several locations that was moved to another parent keeps, in its detached multi-location, the very
+    # location objects of its former parent's grid (MultiIndexLocation.detachedCopy is shallow).  Re-linking failures of copies
+    # of such trees are one failure class of their own (suffix .stale-multilocation).
+    stale = ""
+    for o in on:
+        outer = o.spatialLocator
+        if outer is not None and any(inner.grid is not outer.grid for inner in getattr(outer, "_locations", [])):
+            stale = ".stale-multilocation"
     r = shape(orig, cp, True)
     if r:
         report("copy.shape", "the copy is not an equal-shaped tree: " + r, W.inp(at=at))
@@ -620,7 +664,7 @@ def check_copy(W, orig, cp, how, preU, pre_grids):
                 report("copy.grid-owner", "the copied grid does not point at its new owner", W.inp(at=at, node=W.lab(c), owner=W.lab(c.spatialGrid.armiObject)))
             for _ijk, loc in c.spatialGrid.items():
                 if loc.grid is not c.spatialGrid:
-                    report("copy.grid-locations", "a location held by the copied grid does not point at it", W.inp(at=at, node=W.lab(c)))
+                    report("copy.grid-locations" + stale, "a location held by the copied grid does not point at it", W.inp(at=at, node=W.lab(c)))
                     break
             for ko, kc in zip(kids(o), kids(c)):
                 lo, lc = locator_parts(ko.spatialLocator), locator_parts(kc.spatialLocator)
@@ -629,7 +673,7 @@ def check_copy(W, orig, cp, how, preU, pre_grids):
                     continue
                 for a, b in zip(lo, lc):
                     if a.grid is o.spatialGrid and b.grid is not c.spatialGrid:
-                        report("copy.locator-grid", "a child locator of the copy is not attached to the new parent's grid", W.inp(at=at, node=W.lab(kc)))
+                        report("copy.locator-grid" + stale, "a child locator of the copy is not attached to the new parent's grid", W.inp(at=at, node=W.lab(kc)))
                         break
                     if (a.i, a.j, a.k) != (b.i, b.j, b.k):
                         report("copy.locator-indices", "child locator indices changed", W.inp(at=at, node=W.lab(kc)))
@@ -810,6 +854,10 @@ def apply_op(W, op, misuse=None, light=False):
         return True
     if exc is not None:
         RAISED["%s.%s:%s" % (W.kind, k, type(exc).__name__)] = RAISED.get("%s.%s:%s" % (W.kind, k, type(exc).__name__), 0) + 1
+        if os.environ.get("C01_SHOW_RAISED") == "%s.%s:%s" % (W.kind, k, type(exc).__name__):
+            import traceback
+
+            sys.stderr.write(json.dumps(W.inp()) + "\n" + "".join(traceback.format_exception(type(exc), exc, exc.__traceback__)[-6:]))
     if k in ("add-dup", "insert-dup"):
         if not isinstance(exc, RuntimeError) or (post[0][:n0], post[1][:n0]) != pre:
             report("view.duplicate-not-refused", "adding a current child again must raise RuntimeError and change nothing", W.inp(raised=repr(exc)))
@@ -839,6 +887,8 @@ def apply_op(W, op, misuse=None, light=False):
     # ---- copies
     if new is not None and exc is None:
         check_copy(W, subject, new, k, preU, pre_grids)
+    elif k in ("deepcopy", "pickle"):
+        report("copy.raised", "copying a subtree raised %r" % exc, W.inp(at={"subtree": W.lab(subject), "how": k}))
     # ---- traversals on everything the call can have affected (+ two bystanders)
     if any(c == "cycle" for c, _ in wf_violations(W)):
         return False
@@ -1048,13 +1098,19 @@ def _run_sequence(kind, build, mode, length):
     rng = random.Random(build * 31 + length)
     if mode == "wellformed":
         initial_checks(W)
-    nwf = length if mode == "wellformed" else rng.randint(0, max(0, length - 1))
+    ncopy = 2 if mode == "wellformed" and length >= 4 else 0  # the last two calls: deepcopy and pickle of some subtree
+    nwf = length - ncopy if mode == "wellformed" else rng.randint(0, max(0, length - 1))
     done = 0
     while done < nwf:
         for op in gen_ops(W, rng):
             if not apply_op(W, op):
                 return
             done += 1
+    for how in (["deepcopy"], ["pickle", rng.choice([2, pickle.HIGHEST_PROTOCOL])])[:ncopy]:
+        attached = [o for o in W.U if o.parent is not None and len(spec_nodes(o)) <= 30]
+        X = rng.choice(attached if attached and rng.random() < 0.75 else [o for o in W.U if len(spec_nodes(o)) <= 60])
+        if not apply_op(W, [how[0], W.pos[id(X)]] + how[1:]):
+            return
     if mode != "wellformed":
         op = gen_misuse(W, rng, mode)
         if op is None:
@@ -1079,36 +1135,33 @@ def replay(inp):
 
 # ------------------------------------------------------------------------------------------------ enumerated parts
 def sweep_world(kind, n):
-    """A parent (object 0) with n children and one spare child (the last object)."""
-    if True:
-        if True:
-            if True:
-                W = World(kind, n, "insert-sweep")
-                rng = random.Random(n)
-                if kind == "generic":
-                    P = Gen("P")
-                    P.setType("fuel")
-                    cs = []
-                    for k in range(n + 1):
-                        c = Gen("c%d" % k)
-                        c.setType(["fuel", "clad", "duct"][k % 3])
-                        cs.append(c)
-                elif kind == "block":
-                    P = blocks.HexBlock("P", height=10.0)
-                    P.setType("fuel")
-                    cs = [Circle("c%d" % k, "HT9", 25.0, 25.0, od=1.0 + k, id=0.0, mult=1.0) for k in range(n + 1)]
-                else:
-                    P = assemblies.HexAssembly("fuel", assemNum=7)
-                    P.spatialGrid = grids.AxialGrid.fromNCells(n)
-                    P.spatialGrid.armiObject = P
-                    cs = [mk_block("b%d" % k, rng, small=True) for k in range(n + 1)]
-                for c in cs[:n]:
-                    P.add(c)
-                W.reg(P)
-                W.reg(cs[n])
-                W.close()
-                W.spare = W.pos[id(cs[n])]
-                return W
+    """A parent (object 0) with n children and one spare child (object ``W.spare``)."""
+    W = World(kind, n, "insert-sweep")
+    rng = random.Random(n)
+    if kind == "generic":
+        P = Gen("P")
+        P.setType("fuel")
+        cs = []
+        for k in range(n + 1):
+            c = Gen("c%d" % k)
+            c.setType(["fuel", "clad", "duct"][k % 3])
+            cs.append(c)
+    elif kind == "block":
+        P = blocks.HexBlock("P", height=10.0)
+        P.setType("fuel")
+        cs = [Circle("c%d" % k, "HT9", 25.0, 25.0, od=1.0 + k, id=0.0, mult=1.0) for k in range(n + 1)]
+    else:
+        P = assemblies.HexAssembly("fuel", assemNum=7)
+        P.spatialGrid = grids.AxialGrid.fromNCells(n)
+        P.spatialGrid.armiObject = P
+        cs = [mk_block("b%d" % k, rng, small=True) for k in range(n + 1)]
+    for c in cs[:n]:
+        P.add(c)
+    W.reg(P)
+    W.reg(cs[n])
+    W.close()
+    W.spare = W.pos[id(cs[n])]
+    return W
 
 
 def insert_sweep():
@@ -1169,6 +1222,7 @@ if B.replay is not None:
     sys.exit(0)
 
 insert_sweep()
+multilocation_move()
 mini_enumeration(4 if THOROUGH else 3)
 PLAN = {  # (tree kind, mode) -> number of sequences
     "quick": {"generic": 300, "block": 150, "assembly": 150, "core": 120, "misuse": 6},
